@@ -1,16 +1,22 @@
 // C08 (and the bidirectional part of C11): gate replay of spec/Connect/ConnLife behaviours. One node per behaviour,
 // up to two connections. The reader, tick and close threads of the real code are parked exactly where the model's
 // pc says, inside calls through public interfaces the harness implements: the OnConnecting handler ("oc"),
-// Broker.Subscribe of a connect-time server-side subscription ("ss"), the OnConnect handler ("cn"), the OnAlive
-// handler ("al"), Transport.Close ("tc"). The presence timer is fired through a harness TimerScheduler.
+// Transport.AcceptProtocol called by Node.addClient before the hub registration ("ac",
+// Config.Metrics.ExposeTransportAcceptProtocol), Broker.Subscribe of a connect-time server-side subscription ("ss"),
+// the OnConnect handler ("cn"), the OnAlive handler ("al"), Transport.Close ("tc"). The presence and expiry timers
+// are fired through a harness TimerScheduler. Connection 2 of every other behaviour is unidirectional
+// (Client.Connect instead of the connect command) when the behaviour sends it no further command.
 // After every step the callback log and the frames of each connection are compared with the model and the C08
-// monitors are evaluated on the REAL callback log.
+// monitors are evaluated on the REAL callback log. While a reader is parked inside OnConnect the model has no timer
+// of the connection armed: a timer the connection armed since its connect began is fired there and the observable
+// consequence (OnAlive / refresh handler running before OnConnect returned) is judged.
 package main
 
 import (
 	"context"
 	"encoding/json"
 	"fmt"
+	"strings"
 	"sync"
 	"time"
 
@@ -33,6 +39,7 @@ type conn8 struct {
 	mu          sync.Mutex
 	log         []string
 	gOC         *cl.Gate
+	gAC         *cl.Gate
 	gSS         *cl.Gate
 	gCN         *cl.Gate
 	gTC         *cl.Gate
@@ -43,6 +50,25 @@ type conn8 struct {
 	overlap     bool
 	pushKind    map[int]string
 	windowPush  map[int]bool
+	exp         bool // expiring credentials, server-side refresh
+	uni         bool // unidirectional transport, Client.Connect
+	seq0        int  // the scheduler's sequence number when the connect began
+	earlyDone   bool
+}
+
+// t8 is the recording transport plus the one natural gate cl.Transport does not offer: AcceptProtocol, which
+// Node.addClient calls (Config.Metrics.ExposeTransportAcceptProtocol) after the connection was marked authenticated
+// and BEFORE hub.add; Node.removeClient calls it again (the gate is open by then).
+type t8 struct {
+	*cl.Transport
+	onAccept func()
+}
+
+func (t *t8) AcceptProtocol() string {
+	if t.onAccept != nil {
+		t.onAccept()
+	}
+	return ""
 }
 
 func (c *conn8) logCB(k string) {
@@ -69,6 +95,11 @@ type run8 struct {
 	sch   *sched
 	ss    bool
 	ssch  string
+	// pushes mode (C11): two more connect-time server-side subscriptions of connection 1, not gated: "b" (not
+	// positioned) and "p" (positioned); ssch is the model's channel "a"
+	pushes bool
+	chB    string
+	chP    string
 	mu    sync.Mutex
 	conns map[int]*conn8
 	byID  map[string]*conn8
@@ -81,13 +112,15 @@ func (r *run8) byid(id string) *conn8 {
 	return r.byID[id]
 }
 
-func newRun8(ss bool, bi int) (*run8, error) {
-	r := &run8{sch: &sched{}, ss: ss, conns: map[int]*conn8{}, byID: map[string]*conn8{}, ssch: fmt.Sprintf("ss8_%d_%d", vh.Seed(), bi)}
+func newRun8(ss, pushes bool, bi int) (*run8, error) {
+	r := &run8{sch: &sched{}, ss: ss, pushes: pushes, conns: map[int]*conn8{}, byID: map[string]*conn8{}, ssch: fmt.Sprintf("ss8_%d_%d", vh.Seed(), bi)}
+	r.chB, r.chP = r.ssch+"_b", r.ssch+"_p"
 	env, err := cl.NewEnv(centrifuge.Config{
 		LogLevel:                     centrifuge.LogLevelNone,
 		ClientTimerScheduler:         r.sch,
 		ClientPresenceUpdateInterval: 10 * time.Hour,
 		ClientStaleCloseDelay:        10 * time.Hour,
+		Metrics:                      centrifuge.MetricsConfig{ExposeTransportAcceptProtocol: true},
 	})
 	if err != nil {
 		return nil, err
@@ -117,8 +150,16 @@ func newRun8(ss bool, bi int) (*run8, error) {
 			return rep, nil
 		}
 		c.gOC.Arrive(gateHold)
+		if c.exp {
+			// the expiry timer (10 min) is armed before the first presence tick (5-10 h); the harness fires it
+			rep.Credentials.ExpireAt = time.Now().Unix() + 600
+		}
 		if r.ss && c.n == 1 {
 			rep.Subscriptions = map[string]centrifuge.SubscribeOptions{r.ssch: {}}
+			if r.pushes {
+				rep.Subscriptions[r.chB] = centrifuge.SubscribeOptions{}
+				rep.Subscriptions[r.chP] = centrifuge.SubscribeOptions{EnablePositioning: true}
+			}
 		}
 		return rep, nil
 	}
@@ -139,12 +180,25 @@ func newRun8(ss bool, bi int) (*run8, error) {
 			c.aliveActive--
 			c.mu.Unlock()
 		})
+		cc.OnRefresh(func(_ centrifuge.RefreshEvent, cb centrifuge.RefreshCallback) {
+			c.logCB("refresh")
+			// the new deadline lies behind the presence tick (<= 10 h): the tick is what gets armed next
+			cb(centrifuge.RefreshReply{ExpireAt: time.Now().Unix() + 100*3600}, nil)
+		})
+		cc.OnSubRefresh(func(_ centrifuge.SubRefreshEvent, cb centrifuge.SubRefreshCallback) {
+			c.logCB("subrefresh")
+			cb(centrifuge.SubRefreshReply{ExpireAt: time.Now().Unix() + 100*3600}, nil)
+		})
 		c.gCN.Arrive(gateHold)
+		c.logCB("connect-ret") // the OnConnect handler returns right after this
 	}
 	env.Hook = func(ev cl.Event) {
 		if c := r.byid(ev.Client); c != nil {
 			switch ev.Kind {
 			case "connecting", "connect", "subscribe", "unsubscribe", "disconnect":
+				if ev.Ch != "" && (ev.Ch == r.chB || ev.Ch == r.chP) {
+					return // the model has one connect-time subscription; the two extra ones only receive publications
+				}
 				c.mu.Lock()
 				c.log = append(c.log, ev.Kind)
 				if ev.Kind == "disconnect" && c.aliveActive > 0 {
@@ -176,6 +230,8 @@ func (c *conn8) frames() []f36 {
 		case rep.Unsubscribe != nil:
 			out = append(out, f36{"unsubscribe", 0})
 		case rep.Push != nil && rep.Push.Disconnect != nil:
+		case rep.Push != nil && rep.Push.Connect != nil:
+			out = append(out, f36{"connect", 0}) // unidirectional: the connect push takes the place of the reply
 		case rep.Push != nil && rep.Push.Message != nil:
 			var n int
 			_, _ = fmt.Sscanf(string(rep.Push.Message.Data), `{"n":%d}`, &n)
@@ -233,7 +289,7 @@ func monitors8(k []string, established int, closedDone bool) []verdict {
 	if count("disconnect") > 1 {
 		vs = append(vs, verdict{"disconnect-twice", fmt.Sprintf("the disconnect callback ran %d times: %v", count("disconnect"), k)})
 	}
-	seenConnect, seenDisc := false, false
+	seenConnect, seenRet, seenDisc := false, false, false
 	for _, e := range k {
 		switch e {
 		case "connect":
@@ -241,12 +297,17 @@ func monitors8(k []string, established int, closedDone bool) []verdict {
 				vs = append(vs, verdict{"connect-after-disconnect", fmt.Sprintf("connect callback after the disconnect callback: %v", k)})
 			}
 			seenConnect = true
-		case "alive", "subscribe", "unsubscribe", "disconnect":
+		case "connect-ret":
+			seenRet = true
+		case "alive", "refresh", "subrefresh", "subscribe", "unsubscribe", "disconnect":
+			timed := e == "alive" || e == "refresh" || e == "subrefresh"
 			if !seenConnect {
 				vs = append(vs, verdict{e + "-before-connect", fmt.Sprintf("the %s callback ran although the connect callback had not run: %v", e, k)})
+			} else if timed && !seenRet {
+				vs = append(vs, verdict{"order:" + e + "-before-connect-returned", fmt.Sprintf("the %s callback started while the connect callback was still running: %v", e, k)})
 			}
-			if e == "alive" && seenDisc {
-				vs = append(vs, verdict{"alive-after-disconnect", fmt.Sprintf("alive callback after the disconnect callback: %v", k)})
+			if timed && seenDisc {
+				vs = append(vs, verdict{e + "-after-disconnect", fmt.Sprintf("%s callback after the disconnect callback: %v", e, k)})
 			}
 			if e == "disconnect" {
 				seenDisc = true
@@ -273,7 +334,8 @@ func established(fr []f36, ssConn bool) int {
 
 func tlaSeq(v any, i int) any { return vh.List(v)[i-1] }
 
-func (r *run8) run(bi int, beh []map[string]any, ss, pushes bool, res *vh.Result) {
+// run replays one behaviour; the returned key identifies a completed non-trivial behaviour ("" otherwise).
+func (r *run8) run(bi int, beh []map[string]any, ss, pushes bool, res *vh.Result) (key string) {
 	var steps []any
 	completed := 1
 	allConns := func() []*conn8 {
@@ -303,6 +365,7 @@ func (r *run8) run(bi int, beh []map[string]any, ss, pushes bool, res *vh.Result
 	releaseAll := func() {
 		for _, c := range allConns() {
 			c.gOC.Release()
+			c.gAC.Release()
 			c.gSS.Release()
 			c.gCN.Release()
 			c.gTC.Release()
@@ -358,6 +421,58 @@ func (r *run8) run(bi int, beh []map[string]any, ss, pushes bool, res *vh.Result
 			drift("", fmt.Sprintf("connection %d was not refused as the model says, but it is not connected either: callbacks %v closed=%v", c.n, k, closed))
 		}
 	}
+	// connection 2 of every other behaviour connects over a unidirectional transport (Client.Connect) unless the
+	// behaviour sends it a command after the handshake
+	uni2 := !pushes && bi%2 == 1
+	for si := 1; si < len(beh) && uni2; si++ {
+		step := vh.Map(beh[si]["step"])
+		if v, ok := step["c"]; ok && vh.Int(v) == 2 {
+			switch vh.Str(step["act"]) {
+			case "Subscribe", "Unsubscribe", "DupConnect":
+				uni2 = false
+			}
+		}
+	}
+	// The reader is parked inside the OnConnect handler. The model has no timer of the connection armed there; a timer
+	// the connection armed since its connect began is not a reason to stop: a real scheduler may fire it at any
+	// time, so it is fired and what the application then observes is judged by the monitors of this step.
+	fireEarlyTimers := func(c *conn8) {
+		if c.earlyDone {
+			return
+		}
+		c.earlyDone = true
+		var early []*vtimer
+		for _, tm := range r.sch.active(c.id) {
+			if tm.seq > c.seq0 {
+				early = append(early, tm)
+			}
+		}
+		if len(early) == 0 {
+			return
+		}
+		res.Count("timer_armed_inside_onconnect", 1)
+		steps = append(steps, map[string]any{"act": fmt.Sprintf("harness: %d timer(s) armed while the OnConnect handler of connection %d is still running: fired", len(early), c.n)})
+		for _, tm := range early {
+			r.sch.mu.Lock()
+			tm.fired = true
+			r.sch.mu.Unlock()
+			tm.cb()
+		}
+		timedSeen := func() bool {
+			for _, e := range c.cbLog() {
+				if e == "alive" || e == "refresh" || e == "subrefresh" {
+					return true
+				}
+			}
+			return false
+		}
+		for dl := time.Now().Add(time.Second); !timedSeen() && time.Now().Before(dl); {
+			time.Sleep(200 * time.Microsecond)
+		}
+		if !timedSeen() {
+			res.Count("early_timer_without_consequence", 1)
+		}
+	}
 	for si := 1; si < len(beh) && completed == 1; si++ {
 		st := beh[si]
 		step := vh.Map(st["step"])
@@ -377,14 +492,22 @@ func (r *run8) run(bi int, beh []map[string]any, ss, pushes bool, res *vh.Result
 		switch act {
 		case "NewConn":
 			t := cl.NewTransport(centrifuge.ProtocolTypeJSON)
-			c = &conn8{n: cn, t: t, gOC: cl.NewGate(), gSS: cl.NewGate(), gCN: cl.NewGate(), gTC: cl.NewGate(), ch: fmt.Sprintf("c8_%d_%d_%d", vh.Seed(), bi, cn)}
+			c = &conn8{n: cn, t: t, gOC: cl.NewGate(), gAC: cl.NewGate(), gSS: cl.NewGate(), gCN: cl.NewGate(), gTC: cl.NewGate(), ch: fmt.Sprintf("c8_%d_%d_%d", vh.Seed(), bi, cn)}
+			if v, ok := step["exp"]; ok {
+				c.exp = vh.Bool(v)
+			}
+			c.uni = cn == 2 && uni2
+			t.SetUnidirectional(c.uni)
 			t.OnClose = func(centrifuge.Disconnect) { c.gTC.Arrive(gateHold) }
 			r.sch.setOwner(fmt.Sprintf("new%d", cn))
-			conn, err := r.env.NewConnT("", t)
+			ctx, cancel := context.WithCancel(context.Background())
+			client, closeFn, err := centrifuge.NewClient(ctx, r.env.Node, &t8{Transport: t, onAccept: func() { c.gAC.Arrive(gateHold) }})
 			if err != nil {
+				cancel()
 				drift("", "NewConn: "+err.Error())
 				continue
 			}
+			conn := &cl.Conn{Env: r.env, Client: client, T: t, Cancel: cancel, CloseF: closeFn}
 			c.conn, c.id = conn, conn.Client.ID()
 			r.sch.rename(fmt.Sprintf("new%d", cn), c.id)
 			r.mu.Lock()
@@ -392,9 +515,14 @@ func (r *run8) run(bi int, beh []map[string]any, ss, pushes bool, res *vh.Result
 			r.mu.Unlock()
 		case "ConnBegin":
 			c.reader = make(chan struct{})
+			c.seq0 = r.sch.lastSeq()
 			go func(c *conn8) {
 				defer close(c.reader)
-				c.conn.Do(&protocol.Command{Id: 1, Connect: &protocol.ConnectRequest{}})
+				if c.uni {
+					c.conn.Client.Connect(centrifuge.ConnectRequest{})
+				} else {
+					c.conn.Do(&protocol.Command{Id: 1, Connect: &protocol.ConnectRequest{}})
+				}
 			}(c)
 			if mrd() == "oc" {
 				if !c.gOC.WaitArrived(gateWait) {
@@ -403,11 +531,14 @@ func (r *run8) run(bi int, beh []map[string]any, ss, pushes bool, res *vh.Result
 			} else if !waitDone(c.reader, gateWait) {
 				drift("", "the connect command on a closed connection did not return")
 			}
-		case "ConnAuth", "ConnReply":
-			refused := act == "ConnAuth" && mrd() == "done" && len(vh.List(tlaSeq(st["spawned"], cn))) > 0 && (shutBegun || shutDone)
-			if act == "ConnAuth" {
+		case "ConnAuth", "ConnReg", "ConnReply":
+			refused := act == "ConnReg" && mrd() == "done" && len(vh.List(tlaSeq(st["spawned"], cn))) > 0 && (shutBegun || shutDone)
+			switch act {
+			case "ConnAuth":
 				c.gOC.Release()
-			} else {
+			case "ConnReg":
+				c.gAC.Release()
+			default:
 				c.gSS.Release()
 			}
 			// where does the reader get to?
@@ -415,13 +546,36 @@ func (r *run8) run(bi int, beh []map[string]any, ss, pushes bool, res *vh.Result
 			deadline := time.Now().Add(gateWait)
 			for at == "" && time.Now().Before(deadline) {
 				switch {
-				case act == "ConnAuth" && ss && cn == 1 && c.gSS.WaitArrived(50*time.Microsecond):
+				case act == "ConnAuth" && c.gAC.WaitArrived(50*time.Microsecond):
+					at = "ac"
+				case act == "ConnReg" && ss && cn == 1 && c.gSS.WaitArrived(50*time.Microsecond):
 					at = "ss"
-				case c.gCN.WaitArrived(50 * time.Microsecond):
+				case act != "ConnAuth" && c.gCN.WaitArrived(50*time.Microsecond):
 					at = "cn"
 				case isDone(c.reader):
 					at = "done"
 				}
+			}
+			if at == "ss" && pushes {
+				// the two ungated connect-time subscriptions are in the hub once their Broker.Subscribe was called
+				inHub := func() bool {
+					b, p := false, false
+					for _, x := range r.gb.CallLog() {
+						b = b || x == "sub:"+r.chB
+						p = p || x == "sub:"+r.chP
+					}
+					return b && p
+				}
+				for dl := time.Now().Add(gateWait); !inHub() && time.Now().Before(dl); {
+					time.Sleep(100 * time.Microsecond)
+				}
+				if !inHub() {
+					drift("", "the ungated connect-time subscriptions did not reach the broker")
+				}
+				time.Sleep(300 * time.Microsecond)
+			}
+			if at == "cn" {
+				fireEarlyTimers(c)
 			}
 			if refused && at != "done" {
 				phase := "during"
@@ -448,9 +602,23 @@ func (r *run8) run(bi int, beh []map[string]any, ss, pushes bool, res *vh.Result
 			nontrivial = true
 		case "ConnDone":
 			c.gCN.Release()
+			// the reader is not parked anywhere after the handler: it arms the timers (the model's ConnArm) and returns
 			if !waitDone(c.reader, gateWait) {
 				drift("", "the connect command did not return after the OnConnect handler")
 			}
+		case "ConnArm":
+			// scheduleOnConnectTimers ran before the reader returned (awaited by ConnDone); the timer steps check what is armed
+		case "TimerExpire":
+			seq := r.sch.lastSeq()
+			if _, n, ok := r.sch.fire(c.id); !ok {
+				drift("", fmt.Sprintf("expected one armed timer (expiry) for connection %d, found %d", cn, n))
+				continue
+			}
+			// expire() runs on its own goroutine: refresh handler, its answer, the next timer armed
+			if !r.sch.waitArmed(c.id, seq, gateWait) {
+				drift("", fmt.Sprintf("no timer was armed after the refresh of connection %d", cn))
+			}
+			nontrivial = true
 		case "Subscribe":
 			id := c.conn.NextID() + 10
 			c.conn.Do(&protocol.Command{Id: id, Subscribe: &protocol.SubscribeRequest{Channel: c.ch}})
@@ -479,8 +647,8 @@ func (r *run8) run(bi int, beh []map[string]any, ss, pushes bool, res *vh.Result
 				continue
 			}
 			arrived := false
-			for try := 0; try < 6 && !arrived; try++ {
-				if arrived = g.WaitArrived(150 * time.Millisecond); arrived {
+			for try := 0; try < 3 && !arrived; try++ {
+				if arrived = g.WaitArrived(time.Second); arrived {
 					break
 				}
 				// a tick that finds the previous tick's goroutine still finishing only re-arms: fire again
@@ -493,10 +661,11 @@ func (r *run8) run(bi int, beh []map[string]any, ss, pushes bool, res *vh.Result
 			}
 			nontrivial = true
 		case "TickEnd":
+			n0 := ticksDone(c.id)
 			if g := c.alGate(); g != nil {
 				g.Release()
 			}
-			time.Sleep(300 * time.Microsecond)
+			waitTickDone(c.id, n0, gateWait)
 		case "Disconnect":
 			c.conn.Client.Disconnect()
 		case "TransportClose":
@@ -583,8 +752,42 @@ func (r *run8) run(bi int, beh []map[string]any, ss, pushes bool, res *vh.Result
 						_ = cc.Send(data)
 					}
 				}
-			} else if _, err := r.env.Node.Publish(r.ssch, data); err != nil {
-				drift("", "publish: "+err.Error())
+			} else {
+				ch := r.ssch
+				var opts []centrifuge.PublishOption
+				if kind == "hpub" {
+					// a publication that carries an offset (channel with history)
+					opts = append(opts, centrifuge.WithHistory(32, time.Minute))
+					switch vh.Str(step["ch"]) {
+					case "b":
+						ch = r.chB
+					case "p":
+						ch = r.chP
+					}
+					c.mu.Lock()
+					c.pushKind[n] = "pub-with-offset"
+					c.mu.Unlock()
+				}
+				// A publication to the positioned subscription blocks inside the hub broadcast while the connect command
+				// is under way (the subscription holds its publication/subscribe synchronisation lock until the connect
+				// reply is out): publications of the window are handed over on their own goroutine. The broker keeps
+				// the order per channel (offset and delivery under its publish lock).
+				perr := make(chan error, 1)
+				go func() { _, err := r.env.Node.Publish(ch, data, opts...); perr <- err }()
+				wait := gateWait
+				if vh.Bool(step["window"]) {
+					wait = 2 * time.Millisecond
+				}
+				select {
+				case err := <-perr:
+					if err != nil {
+						drift("", "publish: "+err.Error())
+					}
+				case <-time.After(wait):
+					if !vh.Bool(step["window"]) {
+						drift("", "Node.Publish did not return")
+					}
+				}
 			}
 			if vh.Bool(step["window"]) {
 				time.Sleep(500 * time.Microsecond) // nothing to wait for: the push must NOT show up before the reply
@@ -623,7 +826,14 @@ func (r *run8) run(bi int, beh []map[string]any, ss, pushes bool, res *vh.Result
 			k := cc.cbLog()
 			fr := cc.frames()
 			for _, v := range monitors8(k, established(fr, ss && cc.n == 1), vh.Str(tlaSeq(st["cl"], cc.n)) == "done") {
-				violate("C08", v.sig, fmt.Sprintf("connection %d: %s", cc.n, v.what))
+				path := "connect command"
+				if cc.uni {
+					path = "unidirectional Client.Connect"
+					if strings.HasPrefix(v.sig, "order:") {
+						v.sig += ":unidirectional"
+					}
+				}
+				violate("C08", v.sig, fmt.Sprintf("connection %d (%s): %s", cc.n, path, v.what))
 			}
 			cc.mu.Lock()
 			ov := cc.overlap
@@ -647,14 +857,19 @@ func (r *run8) run(bi int, beh []map[string]any, ss, pushes bool, res *vh.Result
 					}
 				}
 			}
-			if len(fr) > 0 && fr[0].T != "connect" && fr[0].T != "disc" {
-				what := fr[0].T
+			// every frame written before the connect reply (a class of its own per kind of push: a known finding for
+			// one kind must not hide another)
+			for i, f := range fr {
+				if f.T == "connect" || f.T == "disc" {
+					break
+				}
+				what := f.T
 				if what == "push" {
 					cc.mu.Lock()
-					what += "-" + cc.pushKind[fr[0].Code]
+					what += "-" + cc.pushKind[f.Code]
 					cc.mu.Unlock()
 				}
-				violate("C11", "first-frame:"+what, fmt.Sprintf("connection %d: the first frame written is %v (%s), not the connect reply: %v", cc.n, fr[0], what, fr))
+				violate("C11", "first-frame:"+what, fmt.Sprintf("connection %d: frame %d is %v (%s), written before the connect reply: %v", cc.n, i+1, f, what, fr))
 			}
 			for i, f := range fr {
 				if f.T == "connect" && i > 0 && fr[0].T == "connect" {
@@ -731,12 +946,13 @@ func (r *run8) run(bi int, beh []map[string]any, ss, pushes bool, res *vh.Result
 		}
 	}
 	if completed == 1 && nontrivial {
-		res.Distinct(vh.J(steps))
+		key = vh.J(steps)
 	}
 	if bi < 2 {
 		res.Sample(replay())
 	}
 	res.Done(1, completed)
+	return key
 }
 
 type in8 struct {
@@ -758,13 +974,39 @@ func c08(in json.RawMessage, res *vh.Result) error {
 		go func(bi int) {
 			defer wg.Done()
 			defer func() { <-sem }()
-			r, err := newRun8(ri.SS, bi)
-			if err != nil {
-				res.Drift("C08", "node: "+err.Error(), nil)
-				res.Done(1, 0)
+			// a behaviour that drifted (a gate not reached in time on a loaded machine, ...) without a violation is
+			// re-executed on a fresh node before the drift counts
+			for attempt := 1; ; attempt++ {
+				r, err := newRun8(ri.SS, ri.Pushes, bi)
+				if err != nil {
+					res.Drift("C08", "node: "+err.Error(), nil)
+					res.Done(1, 0)
+					return
+				}
+				local := vh.NewResult()
+				key := r.run(bi, ri.Behaviours[bi], ri.SS, ri.Pushes, local)
+				if len(local.Violations) == 0 && len(local.Drifts) > 0 && attempt < 3 {
+					res.Count("re_executed_after_drift", 1)
+					continue
+				}
+				for _, v := range local.Violations {
+					res.Violate(v.Prop, v.Sig, v.What, v.Replay)
+				}
+				for _, d := range local.Drifts {
+					res.Drift(d.Prop, d.What, d.Replay)
+				}
+				for k, n := range local.Counters {
+					res.Count(k, n)
+				}
+				for _, sm := range local.Samples {
+					res.Sample(sm)
+				}
+				if key != "" {
+					res.Distinct(key)
+				}
+				res.Done(local.Executed, local.Completed)
 				return
 			}
-			r.run(bi, ri.Behaviours[bi], ri.SS, ri.Pushes, res)
 		}(bi)
 	}
 	wg.Wait()
